@@ -34,6 +34,10 @@ func generate(P *Program, con *FuncContract) (res *FuncResult) {
 	}
 	g := newGen(P, fn, con, con.Mode)
 	res.Gen = g
+	if strings.HasPrefix(con.Key, "body:") {
+		P.bodyMode[fn] = true
+		defer func() { P.bodyMode[fn] = false }()
+	}
 	defer func() {
 		if r := recover(); r != nil {
 			if re, ok := r.(rejectErr); ok {
@@ -253,6 +257,12 @@ func (g *Gen) frameCheck(fr *Frame, st *State, p *Ptr) {
 }
 
 func (g *Gen) frameElems(st *State, arr string, elemT types.Type) {
+	g.frameElemsIf(st, "true", arr, elemT)
+}
+
+func (g *Gen) frameElemsIf(st *State, guard string, arr string, elemT types.Type) {
+	g.frameGuard = guard
+	defer func() { g.frameGuard = "" }()
 	g.frameObligation(st, "elements", arr, func(e *Env, m CExpr) (string, bool) {
 		c, ok := m.(*CCall)
 		if !ok || c.Fun != "elems" || len(c.Args) != 1 {
@@ -290,6 +300,9 @@ func (g *Gen) frameObligation(st *State, what, ref string, match func(e *Env, m 
 		}
 	}
 	goal := or(alts...)
+	if g.frameGuard != "" && g.frameGuard != "true" {
+		goal = implies(g.frameGuard, goal)
+	}
 	if goal == "true" {
 		return
 	}
